@@ -12,7 +12,7 @@ import (
 func init() {
 	reg("C25", Meta{
 		Technique:   "sibling agreement on SSA normal forms (expiry predicate of the per-peer answer vs. the listing), provenance of store keys, zero-duration handling as guard shape",
-		Explanation: "C25 (blocklist), structural clauses: (A1) Blocklist.Exists and the closure of Blocklist.Peers decide 'expired' with the same predicate over (timestamp, duration) — same operators, operands and the same branch polarities leading to 'still blocked' — so the listing agrees with the per-peer answer; (A2) both read the entry through the same decoder (get); (P1) Exists/Add/Remove address the store with generateKey(overlay), and Remove deletes that key; (G1) Add writes the entry with the current time and a duration that is either the requested one or the stored one (never a third value). Not decided: the max-merge arithmetic of Add and the exact expiry time (value reasoning).",
+		Explanation: "C25 (blocklist), structural clauses: (A1) Blocklist.Exists and the closure of Blocklist.Peers decide 'expired' with the same predicate over (timestamp, duration) — same operators, operands and the same branch polarities leading to 'still blocked' — so the listing agrees with the per-peer answer; (A2) both read the entry through the same decoder (get); (P1) Exists/Add/Remove address the store with generateKey(overlay), and Remove deletes that key; (F1) every return of Add is either the read error or the result of writing the entry — no early success return that would keep a stale timestamp; (G1) Add writes the entry with the current time and a duration that is either the requested one or the stored one (never a third value). Not decided: the max-merge arithmetic of Add and the exact expiry time (value reasoning).",
 	}, c25)
 	reg("C26", Meta{
 		Technique:   "must-guard / bad-edge reachability and must-follow on SSA, lockset analysis for the flagged-peer map",
@@ -178,6 +178,20 @@ func c25(r *core.Run) {
 	}
 	r.Check("C25.G1", core.Key("C25.G1", add, "stored duration is requested or existing"), add.Pos(), okDur,
 		"Add stores either the requested duration or the already stored one", "Add stores a duration that is neither the requested nor the stored one")
+	// F1: every successful Add (re)writes the entry: the only returns are the read error
+	// and the result of store.Put — an early `return nil` keeps a stale timestamp, so a
+	// requested period is not fully covered
+	core.EachInstr(add, func(_ *ssa.BasicBlock, _ int, in ssa.Instruction) {
+		ret, ok := in.(*ssa.Return)
+		if !ok || ret.Block() == add.Recover {
+			return
+		}
+		v := core.Forward(ret.Results[0])
+		c, _ := core.CallOf(v)
+		okRet := c != nil && (core.IsCallTo(c, "(pkg/storage.StateStorer).Put") || core.IsCallTo(c, get))
+		r.Check("C25.F1", core.Key("C25.F1", add, "every successful Add writes the entry"), ret.Pos(), okRet,
+			"Add ends either with the read error or with the result of writing the entry (fresh timestamp)", "Add can return without writing the entry (e.g. when a longer block exists): the old timestamp is kept and the newly requested period is not fully covered")
+	})
 	okTs := false
 	for _, st := range fieldStoresAny(add, "Timestamp") {
 		if c, _ := core.CallOf(st.Val); c != nil && !c.Call.IsInvoke() {
